@@ -18,7 +18,14 @@ Inductive case :=
     (* hash(TimeType(q)), hash(mpq(q)), hash(Fraction(q)); hash(int(q)) if q is integral; (m, e, hash(float)) if q = m*2^e is a double *)
 | CFloatRT (m e : Z) (num den : Z) (back : bool)
     (* x = m*2^e (canonical binary64), num/den = TimeType.from_float(x), back = (float(TimeType.from_float(x)) == x) *)
+| CCons (t : Q) (other : operand) (fwd rev : cmp6) (h_t h_o : Z) (in_list dict_hit : bool)
+    (* round 4: all six comparisons `t op other` (fwd) and `other op t` (rev) on the same pair, hash(t), hash(other),
+       `t in [other]`, `t in {other: 1}` *)
 | CCrash.   (* the implementation crashed with an unexpected exception or did not return *)
+
+Definition cmp6_eqb (a b : cmp6) : bool :=
+  Bool.eqb (c_lt a) (c_lt b) && Bool.eqb (c_le a) (c_le b) && Bool.eqb (c_gt a) (c_gt b) && Bool.eqb (c_ge a) (c_ge b)
+  && Bool.eqb (c_eq a) (c_eq b) && Bool.eqb (c_ne a) (c_ne b).
 
 Definition zz_eqb (a b : Z * Z) : bool := (fst a =? fst b)%Z && (snd a =? snd b)%Z.
 Definition outcome_eqb {R} (e : R -> R -> bool) (a b : outcome R) : bool :=
@@ -56,10 +63,26 @@ Definition check_corr (c : case) : bool :=
       && match hfl with Some (m, e, h) => Qeq_bool (dyadic m e) q && (pyhash_float m e =? h)%Z | None => true end
   | CFloatRT m e num den back =>
       canonical64 m e && match den with Zpos d => Bool.eqb (rounds_to m e (num # d)) back | _ => false end
+  | CCons t o fwd rev ht ho _ _ =>
+      cmp6_eqb (time_cmp6 t o false) fwd && cmp6_eqb (time_cmp6 t o true) rev
+      && (pyhash_Q t =? ht)%Z && (pyhash_Q (cmp_value o) =? ho)%Z
   | CCrash => false
   end.
 
 (* specification: r = p/q is strictly inside (x-e, x+e) and no fraction with a smaller denominator is *)
+(* the same search on the reduced end points lo = ln/ld, hi = hn/hd in integer arithmetic (about 4x faster under
+   vm_compute than `brute`, which recomputes x - e and x + e in every round): the smallest numerator above lo*q is
+   floor(ln*q / ld) + 1; it is inside iff p/q < hn/hd.  Used only to establish "no denominator <= 400 works". *)
+Fixpoint none_below (ln ld hn hd q : Z) (fuel : nat) : bool :=
+  match fuel with
+  | O => true
+  | S f => let p := (ln * q / ld + 1)%Z in
+           if (p * hd <? hn * q)%Z then false else none_below ln ld hn hd (q + 1)%Z f
+  end.
+Definition none_below_400 (x e : Q) : bool :=
+  let lo := Qred (x - e) in let hi := Qred (x + e) in
+  none_below (Qnum lo) (Zpos (Qden lo)) (Qnum hi) (Zpos (Qden hi)) 1%Z 400.
+
 Definition best_in (x e : Q) (p q : Z) : bool :=
   match q with
   | Zpos qq =>
@@ -71,7 +94,7 @@ Definition best_in (x e : Q) (p q : Z) : bool :=
          end
        else (* too large for brute force inside the check: no fraction with denominator <= 400 may be inside;
                full minimality for such inputs rests on theorem C14_approx_minimal + the correspondence *)
-         match brute x e 400 with None => true | Some _ => false end)
+         none_below_400 x e)
   | _ => false
   end.
 
@@ -135,5 +158,13 @@ Definition check_spec (c : case) : bool :=
       (* the converted value lies in the rounding interval of x (so correctly rounded division returns x), and the
          implementation's float() does return x *)
       canonical64 m e && back && match den with Zpos d => rounds_to m e (num # d) | _ => false end
+  | CCons t o fwd rev ht ho in_list dict_hit =>
+      (* the six answers are those of the exact order on the documented comparison value ... *)
+      cmp6_eqb (cmp6_of t (cmp_value o)) fwd && cmp6_eqb (cmp6_of (cmp_value o) t) rev
+      (* ... and, independently of any value, consistent with each other: exactly one of < == >, <= is (< or ==),
+         >= is (> or ==), != is not ==, the reflected forms mirror, equal objects hash equally and are found in
+         containers *)
+      && cmp6_consistent fwd && cmp6_consistent rev && cmp6_mirror fwd rev
+      && implb (c_eq fwd) (ht =? ho)%Z && Bool.eqb in_list (c_eq fwd) && Bool.eqb dict_hit (c_eq fwd)
   | CCrash => false
   end.
